@@ -320,7 +320,7 @@ def zoo_piece(rng, quotes=True, tags=True, special=True):
         n = rng.range(2, 6)
         return "\n".join(rng.choice(["-", "=", "~", "_"]) * rng.range(2, 9) for _ in range(n))
     if quotes:
-        return " ".join(rng.choice(['"a-b"', '"|"', '"x\\"y"', '""', '"一二"', '"<&>"', "--", "+", "ab"]) for _ in range(rng.range(1, 4)))
+        return " ".join(rng.choice(['"a-b"', '"|"', '"x\\"y"', '""', '"一二"', '"<&>"', "--", "+", "ab", '3"', '\\"x"', '"']) for _ in range(rng.range(1, 4)))
     return label(rng, special)
 
 
@@ -328,7 +328,7 @@ LEGENDS = ["a = {fill:red}", "b1 = {stroke:blue;}", "w = {}", "red = { fill : #f
            "w = {stroke-dasharray: 1 2;\n  fill: none}", "a={fill:red} ", "big = {a}"]
 
 
-def zoo(rng, legend=True, quotes=True, tags=True, special=True):
+def zoo(rng, legend=True, quotes=True, tags=True, special=True, crlf=False):
     """a drawing composed of 1..4 pieces placed side by side, stacked, aligned or touching, optionally with a legend"""
     art = zoo_piece(rng, quotes, tags, special)
     for _ in range(rng.below(4)):
@@ -355,4 +355,6 @@ def zoo(rng, legend=True, quotes=True, tags=True, special=True):
         art = art.replace("{", "(").replace("}", ")")
     if not quotes:
         art = art.replace('"', "'")
+    if crlf:
+        art = art.replace("\r", "").replace("\n", "\r\n")
     return art
